@@ -11,6 +11,7 @@ import (
 	"strconv"
 	"strings"
 	"testing"
+	"time"
 
 	"github.com/brutella/hc/accessory"
 	"github.com/brutella/hc/characteristic"
@@ -49,11 +50,13 @@ func has(perms []string, p string) bool {
 }
 
 type world struct {
-	acc   *fixture.Acc
-	dir   string
-	cl    *refctl.Client
-	items []*item
-	naccs int
+	churn    *characteristic.Name // a string near the start of the attribute database that no check reads: changing its length shifts everything behind it
+	churnAid uint64
+	acc      *fixture.Acc
+	dir      string
+	cl       *refctl.Client
+	items    []*item
+	naccs    int
 }
 
 // buildWorld creates a bridge with nAcc bridged accessories whose services hold characteristics from
@@ -93,18 +96,26 @@ func buildWorld(t *rapid.T, nAcc int, base int, perAcc int) (*world, error) {
 					it.want = ch.Value
 				}
 				w.items = append(w.items, it)
-				ch.OnValueUpdateFromConn(func(c net.Conn, ch *characteristic.Characteristic, nv, ov interface{}) { it.remote = append(it.remote, nv) })
+				ch.OnValueUpdateFromConn(func(c net.Conn, ch *characteristic.Characteristic, nv, ov interface{}) {
+					it.remote = append(it.remote, nv)
+				})
 			}
 			acc.AddService(svc)
 		}
 		accs = append(accs, acc)
 	}
 	w.naccs = len(accs) + 1
+	churnSvc := service.New("2000")
+	w.churn = characteristic.NewName()
+	w.churn.SetValue("churn")
+	churnSvc.AddCharacteristic(w.churn.Characteristic)
+	bridge.AddService(churnSvc)
 	acc, err := fixture.StartTransport(w.dir, "03145154", false, bridge.Accessory, accs...)
 	if err != nil {
 		return nil, fmt.Errorf("INFRA: %v", err)
 	}
 	w.acc = acc
+	w.churnAid = bridge.ID
 	i := 0
 	for _, a := range accs {
 		for _, s := range a.Services[1:] {
@@ -548,7 +559,7 @@ func TestC09Prop(t *testing.T) {
 					case 0:
 						// ids that do not exist, of every kind: unknown iid of a known accessory, known iid under an
 						// unknown accessory id, iid of one accessory under the id of another, both unknown
-						exists := map[[2]uint64]bool{}
+						exists := map[[2]uint64]bool{{w.churnAid, w.churn.ID}: true}
 						maxAid := uint64(1)
 						for _, it := range w.items {
 							exists[[2]uint64{it.aid, it.ch.ID}] = true
@@ -604,7 +615,7 @@ func TestC09Prop(t *testing.T) {
 			case "put-missing":
 				// a write to an id that does not exist (unknown accessory id with an iid that exists elsewhere, iid of
 				// another accessory) is refused and reaches no characteristic at all
-				exists := map[[2]uint64]bool{}
+				exists := map[[2]uint64]bool{{w.churnAid, w.churn.ID}: true}
 				maxAid := uint64(1)
 				calls := 0
 				for _, it := range w.items {
@@ -683,7 +694,6 @@ func short(v interface{}) string {
 	return s
 }
 
-
 // TestC09Concurrent: several verified controllers read large and small responses at the same time;
 // every response must be complete, well-formed and carry the values of the (unchanged) model.
 func TestC09Concurrent(t *testing.T) {
@@ -699,6 +709,20 @@ func TestC09Concurrent(t *testing.T) {
 		ent, _ := d.EntityWithName(w.acc.Txt()["id"])
 		nctl := 6
 		errs := make(chan error, nctl)
+		// while the controllers read, the application keeps changing a value whose JSON form changes length
+		stopChurn, churnDone := make(chan struct{}), make(chan struct{})
+		go func() {
+			defer close(churnDone)
+			for i := 0; ; i++ {
+				select {
+				case <-stopChurn:
+					return
+				default:
+				}
+				w.churn.SetValue(strings.Repeat("n", 1+(i*37)%190))
+				time.Sleep(200 * time.Microsecond)
+			}
+		}()
 		for c := 0; c < nctl; c++ {
 			go func(c int) {
 				cl, err := refctl.Dial(w.acc.Addr)
@@ -740,8 +764,10 @@ func TestC09Concurrent(t *testing.T) {
 				first = e
 			}
 		}
+		close(stopChurn)
+		<-churnDone
 		stats.Case(stats.Hash("concurrent", rep), true, []string{"concurrent-controllers"}, func() interface{} {
-			return map[string]interface{}{"controllers": nctl, "accessories": w.naccs, "requests_each": 12}
+			return map[string]interface{}{"controllers": nctl, "accessories": w.naccs, "requests_each": 12, "meanwhile": "the application changes the length of a string value every 200 us"}
 		})
 		w.close()
 		if first != nil {
